@@ -293,6 +293,23 @@ func c13Variants(rng *gen.Rng, i int) ([]c13Variant, [][]byte) {
 		w := add("predicate-pattern-referenced-directly", -1, []gen.Global{inner}, cmdFind(wrapPS(gen.GlobalRef{Name: "gp"})...))
 		add("predicate-pattern-inside-another-stored-pattern", w, []gen.Global{inner, outer}, cmdFind(gen.GlobalRef{Name: "go"}))
 		add("predicate-pattern-inside-another-stored-pattern-twice", -1, []gen.Global{inner, outer}, cmdFind(gen.GlobalRef{Name: "go"}, gen.Loop{Min: 0, Max: 1, Form: "maybe", Body: gen.GlobalRef{Name: "go"}}))
+		// two (three) stored patterns whose BODIES are the same text and whose predicates differ - one may have none -
+		// referenced in one command, in both orders: each name keeps its own predicate
+		{
+			k := rng.Intn(len(gen.PredLib))
+			pA, pB := gen.PredLib[k], gen.PredLib[(k+3)%len(gen.PredLib)]
+			same := []gen.Node{gen.Class{Kind: "letter"}}
+			if rng.Bool() {
+				same = []gen.Node{gen.Or{Alts: []gen.Node{gen.Lit{S: "a"}, gen.Lit{S: "ab"}, gen.Class{Kind: "letter"}}}}
+			}
+			gA, gB, gC := gen.Global{Name: "ga", Body: same, Pred: &pA}, gen.Global{Name: "gb", Body: same, Pred: &pB}, gen.Global{Name: "gc", Body: same}
+			ra, rb, rc := gen.GlobalRef{Name: "ga"}, gen.GlobalRef{Name: "gb"}, gen.GlobalRef{Name: "gc"}
+			add("same-body-different-predicates", -1, []gen.Global{gA, gB}, cmdFind(ra, rb))
+			add("same-body-different-predicates-other-order", -1, []gen.Global{gA, gB}, cmdFind(rb, ra))
+			add("same-body-predicate-then-none", -1, []gen.Global{gA, gC}, cmdFind(ra, rc))
+			add("same-body-none-then-predicate", -1, []gen.Global{gA, gC}, cmdFind(rc, ra))
+			add("same-body-three-names", -1, []gen.Global{gC, gB, gA}, cmdFind(rc, gen.Or{Alts: []gen.Node{rb, ra}}, rc))
+		}
 		// ... and what its predicate sees is ITS match, whatever the referencing command has captured before and under
 		// whatever name: a capture called like a built-in of the predicate or like a variable the predicate uses
 		for _, cn := range []string{"tag", "match", "matchLength", "n", "k", "e"} {
@@ -360,7 +377,7 @@ func C13(r *drv.Run) {
 	if !quick(r) {
 		nbody, nhist = 20000, 2500
 	}
-	r.Rule = "(1) capture-free bodies B (with or, in, not in, loops, nested and recursive subroutines) in contexts prefix/suffix, inside a loop, inside an alternation, next to a SECOND stored pattern as bare operands of one alternation (also three alternatives, the second behind a literal, and a stored pattern made of the two): B in place == {B}=s (+0..2 calls) == set g to pattern B referenced 1..3 times, also referenced before AND inside a counted loop (exactly 2 / at least 2 / between 3 and 4), first mentioned inside a zero-count loop and then used, a stored pattern built on another one whose name is defined again before the command, an inline subroutine of the command named like one inside the stored pattern, every inline-subroutine variant again next to an unrelated stored pattern of the same name, an inline subroutine declared inside a loop and called after it, a stored pattern with a predicate used inside another stored pattern, stored patterns whose names differ only in letter case, a name defined again in terms of its own previous definition (== the two-name form == written out), a stored pattern whose body declares an inline subroutine of the stored pattern's own name, all also judged by the reference matcher; a self-referencing subroutine driven 700 (thorough: 4 100) levels deep by an anchored input, inline and as a stored pattern, and chains of 701 and 10 051 (thorough: also 4 101 and 16 501) inline subroutines each standing for the one before it; (2) a three-command source sharing one definition == concatenation of its commands compiled alone; a source that defines the name AGAIN with another body between its commands (also with a predicate on only the first or only the second definition) == concatenation of each command compiled alone with the definition in force where it stands; (3) recorded sequential histories of Compile/Run calls in random order over a pool of sources (including sources whose compilation fails in the parser, the regex sub-parser, the generator and the type checker) and texts, checked offline against the pure-function model: each call's result digest equals the digest the same call produced alone in a fresh worker process; (4) canonical bytecode digest (loop ids normalised) unchanged by runs and equal across recompilations. A predicate-carrying stored pattern referenced behind a capture of the command that is called tag, match, matchLength, n, k or e (names of the predicate's built-ins and of variables the predicates use): the predicate sees its own match. Non-trivial = variant pair with >= 1 match compared / history call whose isolated result has >= 1 match; distinct by (variant source, text) and (history, call index)."
+	r.Rule = "(1) capture-free bodies B (with or, in, not in, loops, nested and recursive subroutines) in contexts prefix/suffix, inside a loop, inside an alternation, next to a SECOND stored pattern as bare operands of one alternation (also three alternatives, the second behind a literal, and a stored pattern made of the two): B in place == {B}=s (+0..2 calls) == set g to pattern B referenced 1..3 times, also referenced before AND inside a counted loop (exactly 2 / at least 2 / between 3 and 4), first mentioned inside a zero-count loop and then used, a stored pattern built on another one whose name is defined again before the command, an inline subroutine of the command named like one inside the stored pattern, every inline-subroutine variant again next to an unrelated stored pattern of the same name, an inline subroutine declared inside a loop and called after it, a stored pattern with a predicate used inside another stored pattern, stored patterns whose names differ only in letter case, a name defined again in terms of its own previous definition (== the two-name form == written out), a stored pattern whose body declares an inline subroutine of the stored pattern's own name, all also judged by the reference matcher; a self-referencing subroutine driven 700 (thorough: 4 100) levels deep by an anchored input, inline and as a stored pattern, and chains of 701 and 10 051 (thorough: also 4 101 and 16 501) inline subroutines each standing for the one before it; (2) a three-command source sharing one definition == concatenation of its commands compiled alone; a source that defines the name AGAIN with another body between its commands (also with a predicate on only the first or only the second definition) == concatenation of each command compiled alone with the definition in force where it stands; (3) recorded sequential histories of Compile/Run calls in random order over a pool of sources (including sources whose compilation fails in the parser, the regex sub-parser, the generator and the type checker) and texts, checked offline against the pure-function model: each call's result digest equals the digest the same call produced alone in a fresh worker process; (4) canonical bytecode digest (loop ids normalised) unchanged by runs and equal across recompilations. A predicate-carrying stored pattern referenced behind a capture of the command that is called tag, match, matchLength, n, k or e (names of the predicate's built-ins and of variables the predicates use): the predicate sees its own match. Two and three stored patterns whose bodies are the same text and whose predicates differ (one may have none), referenced in one command in both orders: each name keeps its own predicate. Non-trivial = variant pair with >= 1 match compared / history call whose isolated result has >= 1 match; distinct by (variant source, text) and (history, call index)."
 	r.Assumptions = []string{
 		"bodies are capture-free, as the property says",
 		"a body that itself declares subroutines is not duplicated textually (two declarations of one name are rejected by design)",
